@@ -7,8 +7,8 @@ class C16(Prop):
     id = "C16"
     title = "Emulated UEs have distinct identities derived from the configured IMSI"
     lean_module = "Stgutg.Props.C16"
-    extra_modules = ["Stgutg.Proofs.GenTieUe"]
-    gen = ["pure-ue"]
+    extra_modules = ["Stgutg.Proofs.GenTieUe", "Stgutg.Gen.PureSelftest"]
+    gen = ["pure-ue", "pure-selftest"]
     theorems = [
         # tie by translation: the RAN-UE-NGAP-ID / SUPI arithmetic regenerated from ue.go IS the hand model; the rest of CreateUE is pinned as text
         "Stgutg.Proofs.GenTie.Ue.CreateUE_ids", "Stgutg.Proofs.GenTie.Ue.CreateUE_eq", "Stgutg.Proofs.GenTie.Ue.CreateUE_tail",
@@ -29,7 +29,7 @@ class C16(Prop):
             "GetUESecurityCapability for every algorithm pair 0..7 x 0..7 and random octets (op uecap); "
             "non-trivial = population of at least 2 UEs, or an accepted single call; distinct by op line")
     trusted_base = [
-        'TIE BY TRANSLATION (gen pure-ue, harness/cmd/gen/pure*.go -> lean/Stgutg/Gen/PureUe.lean, regenerated from the source text on every run): the statements of stgutg.CreateUE before `ue := tglib.NewRanUeContext(` (parsedIMSI, ranUeNgapId := (parsedIMSI + ueNumber) % 1e4, supi := Sprintf("imsi-%0*d", len(imsi), parsedIMSI+ueNumber)), with strconv.Atoi and the %0*d verb as parameters instantiated by the hand models atoi / fmtPad0; the remaining three statements and the signature are pinned as text (CreateUE_tail). The theorems GenTie.Ue.{CreateUE_ids, CreateUE_eq, CreateUE_tail} prove generated definition = hand model for ALL inputs, so a change of the Go text changes the generated definition and the theorem stops checking, whatever input would show it. Trusted here instead of sampling: the translator\'s grammar and its runtime Gen/PureRt.lean (Go\'s fixed-width arithmetic, index / slice panics, value semantics of slices under the translator\'s no-alias check, go/types constant evaluation); a construct outside the grammar fails closed (TRANSLATOR-FAILED file:line)',
+        'TIE BY TRANSLATION (gen pure-ue, harness/cmd/gen/pure*.go -> lean/Stgutg/Gen/PureUe.lean, regenerated from the source text on every run): the statements of stgutg.CreateUE before `ue := tglib.NewRanUeContext(` (parsedIMSI, ranUeNgapId := (parsedIMSI + ueNumber) % 1e4, supi := Sprintf("imsi-%0*d", len(imsi), parsedIMSI+ueNumber)), with strconv.Atoi and the %0*d verb as parameters instantiated by the hand models atoi / fmtPad0; the remaining three statements and the signature are pinned as text (CreateUE_tail). The theorems GenTie.Ue.{CreateUE_ids, CreateUE_eq, CreateUE_tail} prove generated definition = hand model for ALL inputs, so a change of the Go text changes the generated definition and the theorem stops checking, whatever input would show it. Trusted here instead of sampling: the translator\'s grammar and its runtime Gen/PureRt.lean (Go\'s fixed-width arithmetic, index / slice panics, value semantics of slices under the translator\'s no-alias check, go/types constant evaluation); a construct outside the grammar fails closed (TRANSLATOR-FAILED file:line); the translator and its runtime are themselves checked against the Go compiler on every run: gen pure-selftest translates harness/cmd/gen/pureselftest/fns.go and writes the results of EXECUTING the compiled functions beside the translation (Gen/PureSelftest.lean: 97 calls incl. wrap-around, MinInt / -1, division by zero, index / slice panics, shadowing, break / continue, receiver mutation, as kernel-checked equalities)',
         'Model/UeIdentity.lean (CreateUE, NewRanUeContext, GetAuthSubscription, GetUESecurityCapability with the four EA / four IA setters) is a hand model tied by the ue domain',
         'strconv.Atoi and fmt.Sprintf("%0*d") are standard-library calls modelled in the same file (atoi incl. sign / syntax error -> 0 / range clamp; fmtPad0 = exactly w digits when the value fits, plain decimal otherwise, sign handling for negatives); Go int = 64-bit wrap-around (wrap64). All of it is compared with the real calls on malformed IMSIs, overflowing values and negative indices in the ue domain',
         'Spec/Ts24501Identity.lean eaSupported / iaSupported: bit numbering of TS 24.501 9.11.3.54 octets 3 and 4',
